@@ -183,3 +183,86 @@ R.contract(
     },
     locals={"to_delete": "List[str]", "dropped": "int", "decayed": "int"},
 )
+
+# ------------------------------------------------------------------------------------------------ observe_retrieval
+THR = G + "['coactivation_threshold']"
+TOPK = G + "['observe_top_k']"
+PCAP = G + "['pair_cap_per_obs']"
+CMIN = G + "['update']['clamp_min']"
+CMAX = G + "['update']['clamp_max']"
+RANK = "(0 - {x}[1], {x}[0])"          # the sort key (-score, id)
+
+
+def _used_facts(u):
+    """`u` is the list of the first top_k items with score >= threshold under the order (-score, id)"""
+    return [
+        "len({u}) <= top_k".format(u=u),
+        "forall(i, 0 <= i < len({u}), {u}[i][1] >= threshold and exists(j, 0 <= j < len(items), items[j] == {u}[i]))".format(u=u),
+        ("forall2(i, j, 0 <= i and i < j and j < len({u}), " + RANK.format(x="{u}[i]") + " <= " + RANK.format(x="{u}[j]") + ")").format(u=u),
+        ("forall(j, 0 <= j < len(items) and items[j][1] >= threshold, exists(m, 0 <= m < len({u}), {u}[m] == items[j]) or "
+         "(len({u}) == top_k and forall(m, 0 <= m < len({u}), " + RANK.format(x="{u}[m]") + " <= " + RANK.format(x="items[j]") + ")))").format(u=u),
+    ]
+
+
+USED_POST = [c.replace("top_k", TOPK).replace("threshold", THR) for c in _used_facts("gused")]
+
+# frame of the pair loops, stated against the entry state OE (valid for both loops: `old` is the function entry)
+PAIR = "exists(a, 0 <= a < len({u}), exists(b, a < b and b < len({u}), k == ekey({u}[a][0], {u}[b][0])))"
+UNCH = "(k in " + OE + " and {e}[k] == " + OE + "[k])"
+FRAME = {
+    "no-key-removed": "forall((k, 'str'), k in " + OE + ", k in {e})",
+    "only-pairs-among-used-touched": "forall((k, 'str'), k in {e}, " + UNCH + " or " + PAIR + ")",
+    "written-weights-within-clamp": "forall((k, 'str'), k in {e}, " + UNCH + " or ({lo} <= {e}[k]['weight'] and {e}[k]['weight'] <= {hi}))",
+    "existing-records-keep-identity":
+        "forall((k, 'str'), k in {e} and k in " + OE + ", {e}[k]['id'] == " + OE + "[k]['id'] and {e}[k]['src'] == " + OE + "[k]['src'] and "
+        "{e}[k]['dst'] == " + OE + "[k]['dst'] and {e}[k]['rel'] == " + OE + "[k]['rel'] and {e}[k]['updated_at'] == " + OE + "[k]['updated_at'] and "
+        "{e}[k]['attrs']['coact'] >= " + OE + "[k]['attrs']['coact'])",
+    "new-records-canonical":
+        "forall((k, 'str'), k in {e} and not (k in " + OE + "), {e}[k]['id'] == k and k == ekeyf({e}[k]['src'], {e}[k]['dst']) and "
+        "{e}[k]['src'] <= {e}[k]['dst'] and {e}[k]['rel'] == 'coact' and is_none({e}[k]['updated_at']) and {e}[k]['attrs']['coact'] >= 1)",
+}
+FRAME_ORDER = ["no-key-removed", "written-weights-within-clamp", "existing-records-keep-identity", "new-records-canonical",
+               "only-pairs-among-used-touched"]
+
+
+def _frame(e, u, lo, hi):
+    return [FRAME[n].format(e=e, u=u, lo=lo, hi=hi) for n in FRAME_ORDER]
+
+
+COUNT_INV = "cap_left == pair_cap - pairs_updated and pairs_updated >= 0 and cap_left >= 0"
+
+R.contract(
+    GEL + "observe_retrieval", "C18",
+    types={"ctx": "GelCtx", "state": "GelState", "items": ITEMS, "turn": "Optional[int]", "agent": "Optional[str]"},
+    ghost={"gused": (ITEMS, "empty")},
+    requires=[("validator-ranges", VALIDATOR)],
+    ensures=[
+        ("gate-off-state-untouched",
+         "implies(not " + ENABLED + ", seq_eq(" + E + ", " + OE + ") and " + NODES_SAME + " and " + META_SAME + " and "
+         "state.graph['meta']['edges_count'] == old(state.graph['meta']['edges_count']) and "
+         "result['pairs_updated'] == 0 and result['k_used'] == 0)"),
+        ("used-at-most-top-k", "implies(" + ENABLED + ", " + USED_POST[0] + ")"),
+        ("used-above-threshold-from-items", "implies(" + ENABLED + ", " + USED_POST[1] + ")"),
+        ("used-sorted-by-score-then-id", "implies(" + ENABLED + ", " + USED_POST[2] + ")"),
+        ("used-are-the-best-ranked", "implies(" + ENABLED + ", " + USED_POST[3] + ")"),
+        ("metrics", "implies(" + ENABLED + ", result['k_used'] == len(gused) and result['k_in'] == len(items))"),
+        ("pairs-within-cap", "0 <= result['pairs_updated'] and result['pairs_updated'] <= " + PCAP),
+        ("items-untouched", "seq_eq(items, old(items))"),
+        ("nothing-else-changed", NODES_SAME + " and " + META_SAME +
+         " and state.graph['meta']['edges_count'] == old(state.graph['meta']['edges_count'])"),
+    ] + [(n, FRAME[n].format(e=E, u="gused", lo=CMIN, hi=CMAX)) for n in FRAME_ORDER],
+    raises="none",
+    asserts={
+        "k_in": ["seq_eq(norm, items)"],                                   # after the adapter comprehension
+        "norm@2": [                                                        # after the threshold filter
+            "forall(i, 0 <= i < len(norm), norm[i][1] >= threshold and exists(j, 0 <= j < len(items), items[j] == norm[i]))",
+            "forall(j, 0 <= j < len(items) and items[j][1] >= threshold, exists(m, 0 <= m < len(norm), norm[m] == items[j]))",
+        ],
+        "used": _used_facts("used") + ["ghost:gused = used"],            # after sort + [:top_k]
+    },
+    loops={
+        0: {"index": "_a", "inv": [COUNT_INV] + _frame("edges", "used", "clamp_min", "clamp_max")},
+        1: {"index": "_b", "inv": [COUNT_INV] + _frame("edges", "used", "clamp_min", "clamp_max")},
+    },
+    locals={"norm": ITEMS, "used": ITEMS, "pairs_updated": "int", "cap_left": "int"},
+)
